@@ -889,8 +889,14 @@ impl Formatter {
                 // Note: This handles ternary-style if expressions
             }
             Expr::Closure(params, body) => {
+                // closure parameters are bare names (their types are inferred)
                 self.writer.write("(");
-                self.format_params(params);
+                for (i, param) in params.iter().enumerate() {
+                    if i > 0 {
+                        self.writer.write(", ");
+                    }
+                    self.writer.write(&param.node.name);
+                }
                 self.writer.write(") => ");
                 self.format_expr(&body.node);
             }
